@@ -24,7 +24,8 @@ ASSUMPTIONS = ["the invariant is an internal-state invariant by nature: the rust
 
 
 def gen(rng, i, tier):
-    return {"seed": rng.randrange(1 << 40), "n_ops": rng.choice([5, 12, 25, 40, 60]), "p_collide": rng.choice([0.2, 0.35, 0.5])}
+    return {"seed": rng.randrange(1 << 40), "n_ops": rng.choice([5, 12, 25, 40, 60]), "p_collide": rng.choice([0.2, 0.35, 0.5]),
+            "two_systems": i % 3 == 1}
 
 
 def directed():
@@ -34,11 +35,16 @@ def directed():
 def run(ctx, case):
     ns = loader.load()
     rng = random.Random(case["seed"])
-    sysobj, start = hist.start_system(rng, ns)
+    # one system, or two systems alive side by side whose edits are interleaved (a call on one must not reach the other)
+    systems = []
+    for _ in range(2 if case.get("two_systems") else 1):
+        so, start = hist.start_system(rng, ns)
+        systems.append({"sys": so, "start": start, "broken": set(x[0] for x in hist.invariants(so))})
     ops = []
     acc = rej = 0
-    broken = set(x[0] for x in hist.invariants(sysobj))
     for k in range(case["n_ops"]):
+        cur = rng.choice(systems)
+        sysobj = cur["sys"]
         try:
             L = hist.live(sysobj)
         except Exception as e:  # the state is too broken to introspect; a previous step reported it
@@ -46,31 +52,39 @@ def run(ctx, case):
             break
         op = hist.random_op(rng, L, p_collide=case["p_collide"])
         st, exc = hist.apply(sysobj, op, ns)
-        ops.append({"op": op, "outcome": "accepted" if st == "ok" else H.exc_sig(exc)})
+        ops.append({"op": op, "system": systems.index(cur), "outcome": "accepted" if st == "ok" else H.exc_sig(exc)})
         if st == "ok":
             acc += 1
         else:
             rej += 1
             ctx.count("rejected_with", type(exc).__name__)
         ctx.count("ops", hist.op_sig(op) + ("/ok" if st == "ok" else "/rej"))
-        bad = hist.invariants(sysobj)
-        new = [b for b in bad if b[0] not in broken]
         clause = "wellformed.after_accepted" if st == "ok" else "wellformed.after_rejected"
         ctx.ev(clause)
-        if new:
-            L0 = L
-            t = op.get("name")
-            det = {
-                "invariants_broken": [b[0] for b in new], "details": [b[1] for b in new][:3], "introduced_by": op,
-                "outcome": ops[-1]["outcome"], "step": k, "start": start, "history": [o["op"] for o in ops[-6:]],
-                "target_kind": L0["kinds"].get(t), "target_children": L0["children"].get(t),
-                "target_is_rail": t in [r for r in L0["rails"].values() if r] and t not in L0["names"],
-                "name_unchanged": op["op"] == "change_comp" and op["name"] == op["comp"]["name"],
-                "new_kind": op.get("comp", {}).get("kind"),
-                "mux_present": [n for n, kd in L0["kinds"].items() if kd == "PMux"],
-                "kind": "%s>%s" % (op["op"], ",".join(sorted(b[0] for b in new))),
-            }
-            ctx.violate(clause, det)
+        stop = False
+        for other in systems:
+            try:
+                bad = hist.invariants(other["sys"])
+            except Exception as e:  # noqa: BLE001
+                bad = [("state.introspectable", {"exception": "%s: %s" % (type(e).__name__, e)})]
+            new = [b for b in bad if b[0] not in other["broken"]]
+            if new:
+                t = op.get("name")
+                det = {
+                    "invariants_broken": [b[0] for b in new], "details": [b[1] for b in new][:3], "introduced_by": op,
+                    "called_on_system": systems.index(cur), "broken_system": systems.index(other),
+                    "outcome": ops[-1]["outcome"], "step": k, "start": other["start"], "history": ops[-6:],
+                    "target_kind": L["kinds"].get(t), "target_children": L["children"].get(t),
+                    "target_is_rail": t in [r for r in L["rails"].values() if r] and t not in L["names"],
+                    "name_unchanged": op["op"] == "change_comp" and op["name"] == op["comp"]["name"],
+                    "new_kind": op.get("comp", {}).get("kind"),
+                    "mux_present": [n for n, kd in L["kinds"].items() if kd == "PMux"],
+                    "kind": "%s>%s" % (op["op"], ",".join(sorted(b[0] for b in new))),
+                }
+                ctx.violate(clause, det)
+                stop = True
+                break
+        if stop:
             break
         # cross-check with the public view
         st2, pr = H.call(sysobj.params)
@@ -82,4 +96,4 @@ def run(ctx, case):
             ctx.count("params_raised", type(pr).__name__)
     if acc >= 8 and rej >= 3:
         ctx.nontrivial(case["seed"])
-    ctx.sample({"start": start, "first_ops": ops[:6], "accepted": acc, "rejected": rej})
+    ctx.sample({"starts": [x["start"] for x in systems], "first_ops": ops[:6], "accepted": acc, "rejected": rej})
